@@ -204,13 +204,15 @@ def run(rep, tier):
     for e in list(entries):
         idx = [i for i, p in enumerate(e["sig"]["params"]) if p["k"] == "str" and p["enc"] == "utf8" and not p["own"]]
         owned = any((p["k"] == "str" and p["own"]) or (p["k"] == "slice" and p["m"] == "own") for p in e["sig"]["params"])
-        if idx and not owned and len(extra) < 60:
-            e2 = copy.deepcopy(e)
-            e2["n"] = n
-            n += 1
-            e2["args"]["params"][idx[0]] = {"null": False, "items": [0x61, 0xff, 0x62]}
-            e2["invalid_utf8"] = True
-            extra.append(e2)
+        if idx and not owned and len(extra) < 80:
+            # one call per validated string: exactly that one is malformed, the others stay valid
+            for bad in idx:
+                e2 = copy.deepcopy(e)
+                e2["n"] = n
+                n += 1
+                e2["args"]["params"][bad] = {"null": False, "items": [0x61, 0xff, 0x62]}
+                e2["invalid_utf8"] = True
+                extra.append(e2)
     entries += extra
     B = 450
     total = 0
